@@ -414,6 +414,28 @@ func init() {
 		} else {
 			fail("func (*File) DeletePicture")
 		}
+		// deletion policies of object kinds (reference-closure model)
+		chartKeeps := "false"
+		if fd := funcDecl("File", "DeleteChart"); fd != nil {
+			body := src(fd.Body)
+			if !strings.Contains(body, "Pkg.Delete") && !strings.Contains(body, "deleteDrawingRels") && !strings.Contains(body, "removeContentTypesPart") &&
+				strings.Contains(body, "f.deleteDrawing(col, row, drawingXML, \"Chart\")") {
+				chartKeeps = "true"
+			}
+		} else {
+			fail("func (*File) DeleteChart")
+		}
+		fmt.Fprintf(w, "def deleteChartKeepsParts : Bool := %s\n", chartKeeps)
+		if fd := funcDecl("File", "DeleteTable"); fd != nil {
+			body := src(fd.Body)
+			for _, pat := range []string{"f.Pkg.Delete(table.tableXML)", "f.removeContentTypesPart(ContentTypeSpreadSheetMLTable", "f.deleteSheetRelationships(sheet, tbl.RID)"} {
+				if !strings.Contains(body, pat) {
+					fail("DeleteTable: skeleton `%s`", pat)
+				}
+			}
+		} else {
+			fail("func (*File) DeleteTable")
+		}
 		// the cell setters and the calculation chain
 		sstFactsLate := func(fn string, pats ...string) {
 			fd := funcDecl("File", fn)
